@@ -956,3 +956,289 @@ class KeyListWorld:
         if with_cert:
             return asyncssh.load_keypairs([(k, self.certs[i])])[0]
         return asyncssh.load_keypairs([k])[0]
+
+
+# --------------------------------------------------------------------------
+# independent encoder: the encoding CHOICES a foreign writer may make
+# (built from hashlib / PyCA primitives only - nothing from asyncssh)
+# --------------------------------------------------------------------------
+
+import hashlib as _hashlib
+
+
+def _dlen(n):
+    if n < 0x80:
+        return bytes([n])
+    b = n.to_bytes((n.bit_length() + 7) // 8, 'big')
+    return bytes([0x80 | len(b)]) + b
+
+
+def _der(tag, content):
+    return bytes([tag]) + _dlen(len(content)) + content
+
+
+def dSEQ(*items):
+    return _der(0x30, b''.join(items))
+
+
+def dOCT(b):
+    return _der(0x04, b)
+
+
+def dINT(n):
+    b = n.to_bytes(n.bit_length() // 8 + 1, 'big') if n else b'\0'
+    return _der(0x02, b)
+
+
+def dNULL():
+    return b'\x05\x00'
+
+
+def dOID(dotted):
+    p = [int(x) for x in dotted.split('.')]
+    out = bytes([p[0] * 40 + p[1]])
+    for v in p[2:]:
+        chunk = [v & 0x7f]
+        v >>= 7
+        while v:
+            chunk.append(0x80 | (v & 0x7f))
+            v >>= 7
+        out += bytes(reversed(chunk))
+    return _der(0x06, out)
+
+
+OID = {'pbes2': '1.2.840.113549.1.5.13', 'pbkdf2': '1.2.840.113549.1.5.12',
+       'sha1': '1.2.840.113549.2.7', 'sha224': '1.2.840.113549.2.8',
+       'sha256': '1.2.840.113549.2.9', 'sha384': '1.2.840.113549.2.10',
+       'sha512': '1.2.840.113549.2.11',
+       'aes128-cbc': '2.16.840.1.101.3.4.1.2',
+       'aes192-cbc': '2.16.840.1.101.3.4.1.22',
+       'aes256-cbc': '2.16.840.1.101.3.4.1.42',
+       'des-ede3-cbc': '1.2.840.113549.3.7',
+       'md5-des': '1.2.840.113549.1.5.3', 'sha1-des': '1.2.840.113549.1.5.10',
+       'p12-rc4-128': '1.2.840.113549.1.12.1.1',
+       'p12-rc4-40': '1.2.840.113549.1.12.1.2',
+       'p12-3des': '1.2.840.113549.1.12.1.3',
+       'p12-2des': '1.2.840.113549.1.12.1.4'}
+CIPHER_KEY_IV = {'aes128-cbc': (16, 16), 'aes192-cbc': (24, 16),
+                 'aes256-cbc': (32, 16), 'des-ede3-cbc': (24, 8),
+                 'des-cbc': (8, 8), 'des2-cbc': (16, 8)}
+
+
+def _cipher_alg(name, keybytes):
+    from cryptography.hazmat.primitives.ciphers import algorithms
+    try:
+        from cryptography.hazmat.decrepit.ciphers import algorithms as old
+    except ImportError:                 # pragma: no cover
+        old = algorithms
+    if name.startswith('aes'):
+        return algorithms.AES(keybytes)
+    if name in ('des-ede3-cbc', 'des2-cbc'):
+        return old.TripleDES(keybytes)
+    if name == 'des-cbc':
+        return old.TripleDES(keybytes * 3)
+    if name == 'rc4':
+        return old.ARC4(keybytes)
+    raise ValueError(name)
+
+
+def cbc_encrypt(name, keybytes, iv, data):
+    from cryptography.hazmat.primitives.ciphers import Cipher, modes
+    bs = len(iv)
+    pad = bs - len(data) % bs
+    data += bytes([pad]) * pad
+    enc = Cipher(_cipher_alg(name, keybytes), modes.CBC(iv)).encryptor()
+    return enc.update(data) + enc.finalize()
+
+
+def rc4_encrypt(keybytes, data):
+    from cryptography.hazmat.primitives.ciphers import Cipher
+    enc = Cipher(_cipher_alg('rc4', keybytes), None).encryptor()
+    return enc.update(data) + enc.finalize()
+
+
+def pbkdf1(hash_name, pw, salt, count, n):
+    d = pw + salt
+    for _ in range(count):
+        d = _hashlib.new(hash_name, d).digest()
+    return d[:n]
+
+
+def pkcs12_kdf(pw_str, salt, count, n, ident, hash_name='sha1'):
+    """RFC 7292 appendix B.2 (password as BMPString with terminator)."""
+    h = _hashlib.new(hash_name)
+    u, v = h.digest_size, h.block_size
+    pw = pw_str.encode('utf-16be') + b'\0\0'
+
+    def fill(x):
+        if not x:
+            return b''
+        ln = v * ((len(x) + v - 1) // v)
+        return (x * (ln // len(x) + 1))[:ln]
+    D = bytes([ident]) * v
+    I = bytearray(fill(salt) + fill(pw))
+    out = b''
+    while len(out) < n:
+        A = D + bytes(I)
+        for _ in range(count):
+            A = _hashlib.new(hash_name, A).digest()
+        out += A
+        B = int.from_bytes(fill(A)[:v], 'big') + 1
+        for j in range(0, len(I), v):
+            x = (int.from_bytes(I[j:j + v], 'big') + B) % (1 << (8 * v))
+            I[j:j + v] = x.to_bytes(v, 'big')
+    return out[:n]
+
+
+def ber_variant(der_bytes, how):
+    """Re-encode the outermost length: 'longform' = non-minimal long form,
+    'indefinite' = BER indefinite length with end-of-contents octets."""
+    assert der_bytes[0] == 0x30
+    lb = der_bytes[1]
+    hl = 2 if lb < 0x80 else 2 + (lb & 0x7f)
+    content = der_bytes[hl:]
+    if how == 'longform':
+        n = len(content)
+        b = n.to_bytes((n.bit_length() + 7) // 8 + 1, 'big')   # leading 00
+        return b'\x30' + bytes([0x80 | len(b)]) + b + content
+    if how == 'indefinite':
+        return b'\x30\x80' + content + b'\0\0'
+    return der_bytes
+
+
+def pem_wrap(typ, der_bytes, headers=b''):
+    b = binascii.b2a_base64(der_bytes)[:-1]
+    return b'-----BEGIN ' + typ + b'-----\n' + headers + \
+        b'\n'.join(b[i:i + 64] for i in range(0, len(b), 64)) + \
+        b'\n-----END ' + typ + b'-----\n'
+
+
+ENC_PW = 'encoding-pw'
+ENC_SALT = bytes(range(1, 65))
+ENC_ITER = {'1': 1, '2048': 2048, 'large': 65537}
+
+
+def encode_case(row, k):
+    """The file a foreign writer would produce for the case `row` around key
+    k (an asyncssh key: only its PyCA object is used).
+    -> dict(data=bytes, fmt='pem'|'der', pw=str, private=True)"""
+    pk = k.pyca_key
+    scheme = row['scheme']
+    pw = ENC_PW
+    if scheme == 'pbes2':
+        cipher = row['cipher']
+        klen, ivlen = CIPHER_KEY_IV[cipher]
+        salt = ENC_SALT[:row['salt']]
+        count = ENC_ITER[row['iter']]
+        hash_name = 'sha1' if row['prf'] == 'absent' else row['prf']
+        dk_len = klen if row['keylen'] != 'wrong' else \
+            (16 if klen != 16 else 24)
+        dk = _hashlib.pbkdf2_hmac(hash_name, pw.encode(), salt, count, dk_len)
+        iv = bytes(range(0x40, 0x40 + ivlen))
+        plain = pyca_private_der(pk)
+        try:
+            ct = cbc_encrypt(cipher, dk if row['keylen'] != 'wrong' or
+                             cipher.startswith('aes') else dk + dk[:8],
+                             iv, plain)
+        except ValueError:
+            ct = cbc_encrypt(cipher, (dk * 2)[:klen], iv, plain)
+        kdf = [dOCT(salt), dINT(count)]
+        if row['keylen'] != 'absent':
+            kdf.append(dINT(dk_len))
+        if row['prf'] != 'absent':
+            kdf.append(dSEQ(dOID(OID[hash_name]),
+                            *([dNULL()] if row['null'] else [])))
+        der_bytes = dSEQ(
+            dSEQ(dOID(OID['pbes2']),
+                 dSEQ(dSEQ(dOID(OID['pbkdf2']), dSEQ(*kdf)),
+                      dSEQ(dOID(OID[cipher]), dOCT(iv)))),
+            dOCT(ct))
+        der_bytes = ber_variant(der_bytes, row['ber'])
+        return dict(der=der_bytes, typ=b'ENCRYPTED PRIVATE KEY', pw=pw)
+    if scheme == 'pbes1':
+        alg = row['alg']
+        salt = ENC_SALT[:row['salt']]
+        count = ENC_ITER[row['iter']] if row['iter'] != 'large' else 5000
+        plain = pyca_private_der(pk)
+        if alg in ('md5-des', 'sha1-des'):
+            dk = pbkdf1(alg.split('-')[0], pw.encode(), salt, count, 16)
+            ct = cbc_encrypt('des-cbc', dk[:8], dk[8:], plain)
+        elif alg in ('p12-3des', 'p12-2des'):
+            klen = 24 if alg == 'p12-3des' else 16
+            key_ = pkcs12_kdf(pw, salt, count, klen, 1)
+            iv = pkcs12_kdf(pw, salt, count, 8, 2)
+            ct = cbc_encrypt('des-ede3-cbc' if klen == 24 else 'des2-cbc',
+                             key_, iv, plain)
+        else:
+            klen = 16 if alg == 'p12-rc4-128' else 5
+            ct = rc4_encrypt(pkcs12_kdf(pw, salt, count, klen, 1), plain)
+        der_bytes = dSEQ(dSEQ(dOID(OID[alg]), dSEQ(dOCT(salt), dINT(count))),
+                         dOCT(ct))
+        return dict(der=der_bytes, typ=b'ENCRYPTED PRIVATE KEY', pw=pw)
+    if scheme == 'dek':
+        from cryptography.hazmat.primitives import serialization as ser
+        plain = pk.private_bytes(ser.Encoding.DER,
+                                 ser.PrivateFormat.TraditionalOpenSSL,
+                                 ser.NoEncryption())
+        name = row['cipher']
+        real = {'AES-128-CBC': 'aes128-cbc', 'AES-192-CBC': 'aes192-cbc',
+                'AES-256-CBC': 'aes256-cbc', 'DES-EDE3-CBC': 'des-ede3-cbc',
+                'DES-CBC': 'des-cbc', 'BOGUS-CBC': 'aes128-cbc'}[name]
+        klen, ivlen = CIPHER_KEY_IV[real]
+        iv = bytes(range(0xa1, 0xa1 + ivlen))
+        d = b''
+        dk = b''
+        while len(dk) < klen:           # EVP_BytesToKey, MD5, one round
+            d = _hashlib.md5(d + pw.encode() + iv[:8]).digest()
+            dk += d
+        ct = cbc_encrypt(real, dk[:klen], iv, plain)
+        ivx = {'ok': iv, 'short': iv[:-1], 'long': iv + b'\x00'}[row['ivlen']]
+        hexiv = binascii.b2a_hex(ivx)
+        hexiv = hexiv.upper() if row['hexcase'] == 'upper' else hexiv.lower()
+        nm = name if row['namecase'] == 'upper' else name.lower()
+        hdr = b'Proc-Type: 4,ENCRYPTED\nDEK-Info: ' + nm.encode() + b',' + \
+            hexiv + b'\n\n'
+        typ = b'RSA PRIVATE KEY' if k.algorithm == b'ssh-rsa' \
+            else b'EC PRIVATE KEY'
+        return dict(pem=pem_wrap(typ, ct, hdr), pw=pw)
+    if scheme == 'openssh':
+        from cryptography.hazmat.primitives import serialization as ser
+        alg = k.algorithm
+        if alg == b'ssh-ed25519':
+            seed = pk.private_bytes(ser.Encoding.Raw, ser.PrivateFormat.Raw,
+                                    ser.NoEncryption())
+            pubraw = pk.public_key().public_bytes(ser.Encoding.Raw,
+                                                  ser.PublicFormat.Raw)
+            pubblob = S(alg) + S(pubraw)
+            privpart = S(alg) + S(pubraw) + S(seed + pubraw)
+        else:
+            nums = pk.private_numbers()
+            q = pk.public_key().public_bytes(
+                ser.Encoding.X962, ser.PublicFormat.UncompressedPoint)
+            d = nums.private_value
+            db = d.to_bytes(d.bit_length() // 8 + 1, 'big')
+            curve = alg.split(b'-')[-1]
+            pubblob = S(alg) + S(curve) + S(q)
+            privpart = S(alg) + S(curve) + S(q) + S(db)
+        cm = {'empty': b'', 'utf8': 'Zoë 鍵'.encode(),
+              'long': b'c' * 300}[row['comment']]
+        c1 = b'\x12\x34\x56\x78'
+        c2 = c1 if row['check'] == 'equal' else b'\x12\x34\x56\x79'
+        sect = c1 + c2 + privpart + S(cm)
+        if row['nkeys'] == 2:
+            sect += privpart + S(cm)
+        n = (8 - len(sect) % 8) % 8
+        if row['pad'] == 'seq':
+            sect += bytes(range(1, n + 1))
+        elif row['pad'] == 'zeros':
+            sect += b'\0' * (n or 8)
+        elif row['pad'] == 'long':
+            sect += bytes(range(1, n + 9))
+        elif row['pad'] == 'misaligned':
+            sect += bytes(range(1, n + 2))
+        blob = b'openssh-key-v1\0' + S('none') + S('none') + S(b'') + \
+            struct.pack('>I', row['nkeys']) + \
+            (pubblob and S(pubblob)) * row['nkeys'] + S(sect)
+        return dict(pem=pem_wrap(b'OPENSSH PRIVATE KEY', blob), pw=None,
+                    comment=cm or None)
+    raise ValueError(scheme)
